@@ -467,6 +467,18 @@ func shapes() [][]model.Step {
 		{S("V"), agg2}, {S("V"), S("both"), agg2}, {S("E"), agg2}, {S("V"), S("bothE"), agg3}, {S("V"), S("out"), S("in"), agg3},
 		{S("V"), S("as", "a"), S("both")},
 	}
+	// several steps that each hold a resource of their own for the whole run (distinct()
+	// opens a temporary store): 2, 5, 9 and 12 of them in one traversal
+	for _, k := range []int{2, 5, 9, 12} {
+		sh := []model.Step{S("V")}
+		for i := 0; i < k; i++ {
+			if i%3 == 1 {
+				sh = append(sh, S("both"))
+			}
+			sh = append(sh, S("distinct"))
+		}
+		out = append(out, append(sh, cnt))
+	}
 	for _, k := range []int64{0, 1, 99, 100, 101, 999, 1001, 4999, 5001} {
 		out = append(out, []model.Step{S("V"), {Op: "limit", N: k}}, []model.Step{S("V"), S("both"), {Op: "limit", N: k}}, []model.Step{S("V"), S("out"), S("in"), {Op: "limit", N: k}, cnt})
 	}
